@@ -100,6 +100,12 @@ def check(case):
             src = f"*=0x008000\n.table '{path}'\n{{\n{{\n.text '{text}'\n}}\n}}\nafter:\n"
         elif nest == 2:
             src = f"*=0x008000\n.table '{path}'\n.macro say() {{\n.text '{text}'\n}}\n{{\nsay()\n}}\nafter:\n"
+        elif nest == 5:
+            # a second .table in the SAME scope replaces the first: later text uses the new table only, earlier text keeps what it was encoded with
+            other = os.path.join(d, "o.tbl")
+            table_file({"q": b"\x99", "?": b"\x98\x97", "#": b"\x96", "??": b"\x95"}, other)
+            src = f"*=0x008000\n.table '{other}'\n.text 'q'\n.table '{path}'\n.text '{text}'\nafter:\n"
+            want = b"\x99" + want
         elif nest == 4:
             # a loop body that loads its own table: each iteration uses it, the text after the loop uses the enclosing scope's table again
             other = os.path.join(d, "o.tbl")
@@ -161,7 +167,7 @@ def run(tier, seed):
     distinct = set()
     samples = []
     for i in range(n):
-        case = {"seed": seed * 7368787 + i, "nest": i % 5}
+        case = {"seed": seed * 7368787 + i, "nest": i % 6}
         f, src = check(case)
         distinct.add(src.split("tbl'")[-1])
         if i < 1:
@@ -173,7 +179,7 @@ def run(tier, seed):
         failures.append({"ident": "bounded/assumed-hex-model", "script": "b_C18.py", "payload": {"hexmodel": seed}, "observed": f})
     return {"evaluations": n + 200, "distinct_nontrivial": len(distinct),
             "rule": "seeded tables (2-9 entries, 1-3 character texts incl. blanks and overlapping prefixes a/b/ab, unique prefix-free 1-2 byte codes) as real "
-                    ".tbl files loaded by `.table`; texts mixing entries, escapes and unknown characters; at 5 scope placements (same scope, two blocks down, a loop body with its own table, "
+                    ".tbl files loaded by `.table`; texts mixing entries, escapes and unknown characters; at 6 scope placements (same scope, a second table replacing the first in one scope, two blocks down, a loop body with its own table, "
                     "inside a macro applied in a block, inner scope with its own table); emitted bytes, layout label and re-encoding of the decoded text",
             "samples": samples, "failures": failures}
 
